@@ -25,8 +25,8 @@ RULE = ("lists of JSON objects in hint position: random key/value trees and fiel
         "processed; distinct = distinct hint lists.")
 ASSUMPTIONS = ["top-level list elements are JSON objects (dicts); nested positions hold arbitrary JSON values",
                "bool ports and out-of-range integer ports are don't-care for the dial clause"]
-FLOORS = {"quick": {"path1_cases": 600, "path2_cases": 100, "path3_cases": 100, "rx_hints_in_LONELY": 15, "rx_hints_in_CONNECTED": 30, "rx_hints_in_FLUSHING": 8, "malformed_elements": 1500, "roundtrips": 50, "dials": 400},
-          "thorough": {"path1_cases": 40000, "path2_cases": 3000, "path3_cases": 3000, "rx_hints_in_LONELY": 500, "rx_hints_in_CONNECTED": 1000, "rx_hints_in_FLUSHING": 250, "malformed_elements": 90000, "roundtrips": 2500, "dials": 20000}}
+FLOORS = {"quick": {"path1_cases": 600, "path2_cases": 100, "path3_cases": 100, "rx_hints_in_LONELY": 15, "rx_hints_in_CONNECTED": 30, "rx_hints_in_FLUSHING": 8, "malformed_elements": 1500, "roundtrips": 50, "dials": 400, "tor_refusals": 100},
+          "thorough": {"path1_cases": 40000, "path2_cases": 3000, "path3_cases": 3000, "rx_hints_in_LONELY": 500, "rx_hints_in_CONNECTED": 1000, "rx_hints_in_FLUSHING": 250, "malformed_elements": 90000, "roundtrips": 2500, "dials": 20000, "tor_refusals": 6000}}
 JUNK = [None, True, False, 0, -1, 1.5, 2 ** 40, "", "str", [], [1, 2], {}, {"a": 1}, "direct-tcp-v1", ["direct-tcp-v1"], {"type": "direct-tcp-v1"}]
 HOSTS = ["10.1.1.1", "10.1.1.2", "host.example", "fe80::1", "", " ", "a b", "ünï.example", "x" * 300, "127.0.0.1"]
 
@@ -112,7 +112,26 @@ def gen_hints(rng):
     return out
 
 
-def allowed_targets(hints):
+class FakeTor:
+    """what wormhole needs of txtorcon.Tor: stream_via() refuses non-public numeric addresses with ValueError
+    (txtorcon's own predicate) and otherwise gives an endpoint (here: straight to the simulated network)"""
+
+    def __init__(self, reactor):
+        self._reactor = reactor
+        self.asked = []
+        self.refused = 0
+
+    def stream_via(self, host, port, tls=False, socks_endpoint=None):
+        from txtorcon.controller import _is_non_public_numeric_address
+        from twisted.internet.endpoints import HostnameEndpoint
+        self.asked.append((host, port))
+        if _is_non_public_numeric_address(host):
+            self.refused += 1
+            raise ValueError("'{}' isn't going to work over Tor".format(host))
+        return HostnameEndpoint(self._reactor, host, port)
+
+
+def allowed_targets(hints, tor=False):
     """(host, port) pairs that may legitimately be dialled, by an independent reading of the rule:
     string hostname, integer port, supported type (direct-tcp-v1; relay-v1 sub-hints likewise)"""
     ok = set()
@@ -120,7 +139,7 @@ def allowed_targets(hints):
 
     def one(h):
         nonlocal bad
-        if isinstance(h, dict) and h.get("type") == "direct-tcp-v1" and isinstance(h.get("hostname"), str) and isinstance(h.get("port"), int):
+        if isinstance(h, dict) and h.get("type") in (("direct-tcp-v1", "tor-tcp-v1") if tor else ("direct-tcp-v1",)) and isinstance(h.get("hostname"), str) and isinstance(h.get("port"), int):
             ok.add((h["hostname"], h["port"]))
         else:
             bad += 1
@@ -143,7 +162,7 @@ BAD_EXC = ("TypeError", "AttributeError", "KeyError", "ValueError", "IndexError"
 def cases(tier, seed, prep=None):
     q = tier == "quick"
     b = seed * 1000003 + 2000000
-    out = [{"kind": "transit", "seed": b + i, "honest": i % 3 == 0, "receiver": i % 2 == 0} for i in range(700 if q else 45000)]
+    out = [{"kind": "transit", "seed": b + i, "honest": i % 3 == 0, "receiver": i % 2 == 0, "tor": i % 5 == 4} for i in range(700 if q else 45000)]
     out += [{"kind": "dilation", "seed": b + 100000 + i} for i in range(130 if q else 3500)]
     out += [{"kind": "dilstates", "seed": b + 150000 + i} for i in range(120 if q else 3500)]
     out += [{"kind": "roundtrip", "seed": b + 200000 + i} for i in range(60 if q else 2600)]
@@ -155,10 +174,19 @@ def run_transit(spec):
     rng = world.work_rng
     r = world.reactor
     hints = gen_hints(rng)
-    allowed, bad = allowed_targets(hints)
+    tor = FakeTor(r) if spec.get("tor") else None
+    if tor is not None:
+        # onion-ish hints with the kinds of host a peer may put there (names, public and non-public literals)
+        for _ in range(rng.randint(1, 4)):
+            hints.insert(rng.randint(0, len(hints)), {"type": rng.choice(["tor-tcp-v1", "tor-tcp-v1", "direct-tcp-v1"]), "priority": rng.choice([0.0, 1.0, 2]),
+                                                      "hostname": rng.choice(["127.0.0.1", "10.1.1.1", "192.168.1.9", "0.0.0.0", "::1", "fe80::1", "abcdefgh.onion", "host.example", "8.8.8.8"]),
+                                                      "port": rng.randint(1, 65535)})
+        if rng.random() < 0.4:
+            hints.append({"type": "relay-v1", "hints": [{"type": "tor-tcp-v1", "priority": 1.0, "hostname": rng.choice(["10.1.1.2", "::1", "relay.onion"]), "port": 4001}]})
+    allowed, bad = allowed_targets(hints, tor=tor is not None)
     key = rng.randbytes(32)
     cls = transit.TransitReceiver if spec["receiver"] else transit.TransitSender
-    t = cls(None, no_listen=True, reactor=r)
+    t = cls(None, no_listen=True, tor=tor, reactor=r)
     t.set_transit_key(key)
     hints_of(t)           # the application always asks for its own hints before connect()
     peer = None
@@ -202,7 +230,7 @@ def run_transit(spec):
                          "msg": "connect() failed with %r" % (res.failure.value,), "witness": dict(wit, traceback=tb)})
         if not res.done:
             viol.append({"key": "C20/transit/connect-hangs", "msg": "connect() pending after the deadline", "witness": wit})
-        if peer is not None and res.done and res.value is None and not viol:
+        if peer is not None and tor is None and res.done and res.value is None and not viol:
             viol.append({"key": "C20/transit/honest-hints-ignored", "msg": "an honest peer was listening and its hints were in the list, yet connect() failed with %r" % (res.failure.value if res.failure else None),
                          "witness": wit})
     dialled = {(h, p) for (h, p, _) in r.dials[dials_before:]}
@@ -215,7 +243,7 @@ def run_transit(spec):
             break
     world.finish()
     return {"violations": viol, "nontrivial": json.dumps(wit["hints"], sort_keys=True)[:300] if bad else None,
-            "counters": {"path1_cases": 1, "malformed_elements": bad, "dials": len(dialled), "honest_connected": int(bool(peer is not None and res is not None and res.value is not None))},
+            "counters": {"path1_cases": 1, "tor_cases": int(tor is not None), "tor_refusals": tor.refused if tor else 0, "malformed_elements": bad, "dials": len(dialled), "honest_connected": int(bool(peer is not None and res is not None and res.value is not None))},
             "sample": {"kind": "transit", "hints": wit["hints"][:4], "dialled": sorted(dialled, key=repr)[:5],
                        "result": (repr(res.failure.value)[:80] if res is not None and res.failure else "connected") if res is not None else None}}
 
